@@ -195,7 +195,7 @@ func c07R12(c *Ctx, r *Report) {
 		}
 	}
 	// a hello spread over several records (RFC 8446 section 5.1; crypto/tls readHandshakeBytes puts the pieces together)
-	r.rule("C07.R14", "a hello spread over several records (evaluation of Match on a 40-byte ClientHello message cut into two or three handshake records at 1, 3, 4, 20 and 39 bytes): the hello parser is given the whole message - the record bodies joined, up to the length the message header announces - as crypto/tls (readHandshakeBytes) does; while a later record is missing or incomplete the answer is 'need more' and nothing is parsed; a record of another type in between answers (false, nil)", 1)
+	r.rule("C07.R14", "a hello spread over several records (evaluation of Match on a 40-byte ClientHello message cut into two or three handshake records at 1, 3, 4, 20 and 39 bytes): the hello parser is given the whole message and nothing else - the record bodies joined, cut at the length the message header announces - as crypto/tls (readHandshakeBytes) does; while a later record is missing or incomplete the answer is 'need more' and nothing is parsed; a record of another type in between answers (false, nil)", 1)
 	hello := make([]byte, 40)
 	for i := range hello {
 		hello[i] = byte(i*5 + 3)
@@ -216,6 +216,8 @@ func c07R12(c *Ctx, r *Report) {
 	fcases = append(fcases,
 		fc{"three records, cut at 2 and 30", append(append(rec(22, 2, hello[:2]), rec(22, 28, hello[2:30])...), rec(22, 10, hello[30:])...), "parse"},
 		fc{"two records and trailing bytes", append(append(rec(22, 20, hello[:20]), rec(22, 20, hello[20:])...), 9, 9, 9), "parse"},
+		fc{"two records, the second holding 3 bytes beyond the message", append(rec(22, 20, hello[:20]), rec(22, 23, append(append([]byte(nil), hello[20:]...), 9, 9, 9))...), "parse"},
+		fc{"one record holding 3 bytes beyond the message", rec(22, 43, append(append([]byte(nil), hello...), 9, 9, 9)), "parse"},
 		fc{"first of two records only", rec(22, 20, hello[:20]), "more"},
 		fc{"first record and 3 bytes of the next header", append(rec(22, 20, hello[:20]), 22, 3, 1), "more"},
 		fc{"first record and an incomplete second record", append(rec(22, 20, hello[:20]), rec(22, 20, hello[20:25])...), "more"},
@@ -255,6 +257,8 @@ func c07R12(c *Ctx, r *Report) {
 		case "parse":
 			if parsed == "-" {
 				p14 = append(p14, fmt.Sprintf("%s: the hello parser is not reached (answer %s)", t.name, ret))
+			} else if parsed != fmt.Sprintf("%x", hello[off:]) && strings.HasPrefix(parsed, fmt.Sprintf("%x", hello[off:])) {
+				p14 = append(p14, fmt.Sprintf("%s: the message is 40 bytes long by its own header, the hello parser is given %d bytes - the message and what follows it in the record: crypto/tls cuts the message at its announced length and reports server name and ALPN, the parser here stops at bytes it cannot account for and reports none", t.name, len(parsed)/2+off))
 			} else if !strings.HasPrefix(parsed, fmt.Sprintf("%x", hello[off:])) {
 				what := fmt.Sprintf("%d bytes that are not the message", len(parsed)/2)
 				if strings.HasPrefix(fmt.Sprintf("%x", hello[off:]), parsed) {
